@@ -77,18 +77,36 @@ def run_case(case, cid):
     cls = pure.classes()[case["kind"]]
     matrix = case["kind"].endswith("Matrix")
     nm = pure.Namer(case["labels"], matrix)
-    model = cls(case["terms"])
+    from fractions import Fraction
+    sc = Fraction(2) ** (-40 if (cid % 7 == 3 and case["op"] != "subsym") else 0)     # real coefficients far below 1
+    model = cls({k: v * float(sc) for k, v in case["terms"].items()} if sc != 1 else case["terms"])
     if case["kind"] != "dict" and cid % 5 == 0:
         # a model object with history: a term over one more label came and went (its caches still mention the label)
         extra = 7 if matrix else "__gone"
         model[(extra,)] += 1
         model[(extra,)] -= 1
+    if case["kind"] != "dict" and cid % 4 == 1 and len(dict.keys(model)) >= 2:
+        # history: the same request was answered before, then a term left the model through a plain dict method
+        try:
+            with warnings.catch_warnings():
+                warnings.simplefilter("ignore")
+                if case["op"] == "subvalue":
+                    model.subvalue({l: v for l, v in case["vals"]})
+                elif case["op"] == "subgraph":
+                    model.subgraph(set(case["nodes"]), None if case.get("conn_none") else {l: v for l, v in case["vals"]})
+        except Exception:      # noqa
+            pass
+        k_ = sorted(dict.keys(model), key=repr)[cid % len(dict.keys(model))]
+        if cid % 8 == 1:
+            del model[k_]
+        else:
+            model.pop(k_)
     snap = copy.deepcopy(model)
     rec = pure.blank(cid, case["op"])
     rec["spin"] = rec["result_spin"] = case["spin"]
     rec["expect_type"] = case["kind"]
     try:
-        terms = pure.items_of(snap)
+        terms = [(k, common.frac(v) / sc) for k, v in pure.items_of(snap)]       # what TLC sees is the unscaled model
         with warnings.catch_warnings():
             warnings.simplefilter("ignore")
             if case["op"] == "subvalue":
@@ -114,6 +132,8 @@ def run_case(case, cid):
                 else:
                     res = pure.twice(lambda: utils.normalize(model, case["norm_value"]))
         rterms = pure.items_of(res)
+        if sc != 1 and case["op"] != "normalize":
+            rterms = [(k, common.frac(v) / sc) for k, v in rterms]
         extra = [common.frac(case.get("norm_value", 1))]
         den = common.common_den([common.frac(v) for _, v in terms] + [common.frac(v) for _, v in rterms] + extra)
         rec["den"] = den
